@@ -313,3 +313,23 @@ Proof.
     rewrite !map_nth, Hi. reflexivity.
   - rewrite !nth_overflow by (rewrite map_length; lia). reflexivity.
 Qed.
+
+(* ---------------------------------------------------------------- flag alphabets of the range tests *)
+
+(* gross_range_test never answers UNKNOWN; valid_range_test answers GOOD, FAIL or MISSING only *)
+Lemma gross_pt_alphabet flo fhi s x :
+  gross_pt flo fhi s x = GOOD \/ gross_pt flo fhi s x = SUSPECT \/
+  gross_pt flo fhi s x = FAIL \/ gross_pt flo fhi s x = MISSING.
+Proof.
+  unfold gross_pt. destruct x as [v|]; [|auto].
+  destruct (outside flo fhi v); [auto|].
+  destruct s as [[slo shi]|]; [|auto]. destruct (outside slo shi v); auto.
+Qed.
+
+Lemma gross_pt_without_suspect flo fhi x : gross_pt flo fhi None x <> SUSPECT.
+Proof. unfold gross_pt. destruct x as [v|]; [|discriminate]. destruct (outside flo fhi v); discriminate. Qed.
+
+Lemma valid_pt_alphabet lo hi si ei x :
+  valid_pt lo hi si ei x = GOOD \/ valid_pt lo hi si ei x = FAIL \/ valid_pt lo hi si ei x = MISSING.
+Proof. unfold valid_pt. destruct x as [v|]; [|auto]. destruct (in_span lo hi si ei v); auto. Qed.
+
